@@ -301,6 +301,15 @@ def gen_pairs(seed, count, depth):
         lb_ = pool.lbuf(eb, cb, 'std::size_t', storage='carr', name='FxLbMixB%d' % k)
         fixed.append((la, lb_, -1))
         fixed.append((pool.wrapper_lbuf(ea, ca, 'std::uint8_t', storage='arr', name='FxWlMixA%d' % k), pool.wrapper_lbuf(eb, cb, 'std::uint16_t', storage='carr', name='FxWlMixB%d' % k), -1))
+    # vectors whose element types are fungible but not identical (documented: element-wise), and an Optional against the
+    # plain type it wraps (not documented: an empty Optional is a lone NIL byte the plain type cannot read)
+    string = ('str', 'char'); u16 = P('std::uint16_t')
+    fixed.append((('vec', ('pair', i32, string)), ('vec', ('tup', [i32, string])), 1))
+    fixed.append((('vec', string), ('vec', pool.wrapper(string, name='FxWrStr')), 1))
+    fixed.append((('vec', ('vec', u16)), ('vec', ('arr', u16, 2)), 1))
+    fixed.append((('vec', ('map', i32, string)), ('vec', ('umap', i32, string)), 1))
+    fixed.append((('opt', ('vec', u16)), ('arr', u16, 2), -1)); fixed.append((('opt', i32), i32, -1)); fixed.append((i32, ('opt', i32), -1))
+    fixed.append((pool.struct([('o', ('opt', string)), ('n', u8)], name='FxOptSt'), pool.struct([('o', string), ('n', u8)], name='FxPlainSt'), -1))
     for a, b, exp in fixed:
         pairs.append((a, b, exp, ['fixed']))
     while len(pairs) < count and tries < count * 50:
